@@ -14,6 +14,14 @@ CHECKS = {
             "Trusts the Go runtime, rapid's generators and the recording tracer (harness code). Reader/writer interleavings are those "
             "the Go scheduler produces under load, not all.",
             "stateful property-based testing (rapid) with invariant oracles over the traced history", "DESIGN.md §5 C01"),
+    "C02": ("exploration",
+            "Exhaustive enumeration of every relation graph over <=2 states with all flags (quick) and <=3 states (thorough; quick takes a slice), "
+            "every reachable active set and every Add/Remove/Set over every subset, plus rapid-sampled schemas up to 8 states; each traced "
+            "transition is checked against validity predicates P1 (Require closed), P2 (Remove free), P3 (Add honoured), P4 (every change "
+            "justified) and target==applied. Complete only for the enumerated sub-space.",
+            "Predicates are validity checks, not a reference resolver. P3 reads 'excluded by a Remove relation' permissively (counted). "
+            "One known finding (C02-implied-remover) is attributed by a shape matcher; everything else fails the check.",
+            "bounded exhaustive enumeration + property-based testing (rapid) against validity predicates", "DESIGN.md §5 C02"),
 }
 
 NOT_YET = "check not built yet in this session (planned, see DESIGN.md §9)"
